@@ -14,7 +14,7 @@ def Good (cfg : Cfg) (lv : Bool) : Event → Prop
   | .appendLit n true => n ≤ appendLimit
   | .depthAt n => cfg.fx.depth = true → n ≤ 2000
   | .close => False          -- only the epilogue of the command loop closes the connection
-  | .fuel 0 => False         -- only the command loop can run out of its own fuel
+  | .fuel _ => False         -- no loop of the model ever runs out of fuel
   | .tagged _ _ => lv = false
   | _ => True
 
@@ -354,13 +354,64 @@ theorem expectSP_ld {s : S} {r s1} (h : s.expectSP = (r, s1)) : s1.listDepth = s
 
 /-! ## the recursive search-key parser -/
 
-/-- what the three mutually recursive functions guarantee, for a given fuel -/
+theorem func_some_lt {s : S} {valid : Nat → Bool} {t s1} (h : s.func valid = (some t, s1)) :
+    s1.inp.length < s.inp.length := by
+  unfold S.func at h
+  dsimp only at h
+  split at h
+  · cases h
+  · split at h
+    · cases h
+    · split at h
+      · cases h
+      · rename_i hne hne2
+        cases h
+        simp only [S.take, List.length_drop]
+        have : (List.takeWhile valid s.inp).length ≠ 0 := by
+          intro h0; apply hne2; simpa using h0
+        have hle : (List.takeWhile valid s.inp).length ≤ s.inp.length := by
+          have := List.takeWhile_sublist (p := valid) (l := s.inp)
+          exact this.length_le
+        omega
+
+theorem accept_true_lt {s : S} {w : Nat} {s1} (h : s.accept w = (true, s1)) : s1.inp.length < s.inp.length := by
+  unfold S.accept at h
+  split at h
+  · rename_i b s2 heq
+    unfold S.look at heq
+    dsimp only at heq
+    split at heq
+    · cases heq
+    · split at heq
+      · cases heq
+      · rename_i b' r hinp
+        cases heq
+        split at h
+        · cases h
+          simp only [S.take, hinp, List.length_cons, List.length_drop]
+          omega
+        · cases h
+  · cases h
+
+theorem expectAtom_some_lt {s : S} {a s1} (h : s.expectAtom = (some a, s1)) : s1.inp.length < s.inp.length := by
+  unfold S.expectAtom at h
+  split at h
+  · rename_i a' s2 heq; cases h; exact func_some_lt heq
+  · cases h
+
+/-- what the three mutually recursive functions guarantee when their fuel covers twice the unread
+    input: good events only (in particular no `fuel` event), listDepth restored, and a successful
+    key consumes at least one octet -/
 def SearchOK (cfg : Cfg) (lv : Bool) (fuel : Nat) : Prop :=
   (∀ d cur s r s1, cur = 1 + d + s.listDepth → (cfg.fx.depth = true → d ≤ 1000) → s.listDepth ≤ 999 →
-      searchKey cfg fuel d cur s = (r, s1) → Ext cfg lv s s1 ∧ s1.listDepth = s.listDepth) ∧
+      2 * s.inp.length + 3 ≤ fuel →
+      searchKey cfg fuel d cur s = (r, s1) → Ext cfg lv s s1 ∧ s1.listDepth = s.listDepth ∧
+        (r = none → s1.inp.length < s.inp.length)) ∧
   (∀ d cur s r s1, cur = 1 + d + s.listDepth → (cfg.fx.depth = true → d ≤ 1000) → s.listDepth ≤ 999 →
+      2 * s.inp.length + 4 ≤ fuel →
       searchList cfg fuel d cur s = (r, s1) → Ext cfg lv s s1 ∧ s1.listDepth = s.listDepth) ∧
   (∀ d cur k s r s1, cur = 1 + d + s.listDepth → (cfg.fx.depth = true → d ≤ 1000) → s.listDepth ≤ 999 →
+      2 * s.inp.length + 4 ≤ fuel →
       searchKeyAtom cfg fuel d cur k s = (r, s1) → Ext cfg lv s s1 ∧ s1.listDepth = s.listDepth)
 
 theorem searchOK (cfg : Cfg) (lv : Bool) : ∀ fuel, SearchOK cfg lv fuel := by
@@ -368,20 +419,14 @@ theorem searchOK (cfg : Cfg) (lv : Bool) : ∀ fuel, SearchOK cfg lv fuel := by
   induction fuel with
   | zero =>
     refine ⟨?_, ?_, ?_⟩
-    · intro d cur s r s1 _ _ _ h
-      simp only [searchKey] at h
-      cases h; exact ⟨Ext.emit (by trivial), rfl⟩
-    · intro d cur s r s1 _ _ _ h
-      simp only [searchList] at h
-      cases h; exact ⟨Ext.emit (by trivial), rfl⟩
-    · intro d cur k s r s1 _ _ _ h
-      simp only [searchKeyAtom] at h
-      cases h; exact ⟨Ext.emit (by trivial), rfl⟩
+    · intro d cur s r s1 _ _ _ hf; omega
+    · intro d cur s r s1 _ _ _ hf; omega
+    · intro d cur k s r s1 _ _ _ hf; omega
   | succ fuel ih =>
     obtain ⟨ihK, ihL, ihA⟩ := ih
     refine ⟨?_, ?_, ?_⟩
     · -- searchKey
-      intro d cur s r s1 hcur hd hl h
+      intro d cur s r s1 hcur hd hl hf h
       simp only [searchKey] at h
       have hen : Ext cfg lv s (s.enter cur) := by
         unfold S.enter
@@ -391,68 +436,91 @@ theorem searchOK (cfg : Cfg) (lv : Bool) : ∀ fuel, SearchOK cfg lv fuel := by
         show cur ≤ 2000
         omega
       have henl : (s.enter cur).listDepth = s.listDepth := rfl
+      have heni : (s.enter cur).inp = s.inp := rfl
       split at h
       · rename_i k s2 heq
-        have hA := ihA d cur k s2 r s1 (by rw [func_ld heq, henl]; exact hcur) hd (by rw [func_ld heq, henl]; exact hl) h
-        exact ⟨hen.trans ((func_ext heq).trans hA.1), by rw [hA.2, func_ld heq, henl]⟩
+        have hlt2 : s2.inp.length < s.inp.length := by have := func_some_lt heq; rwa [heni] at this
+        have hA := ihA d cur k s2 r s1 (by rw [func_ld heq, henl]; exact hcur) hd (by rw [func_ld heq, henl]; exact hl)
+          (by omega) h
+        have := hA.1.length_le
+        exact ⟨hen.trans ((func_ext heq).trans hA.1), by rw [hA.2, func_ld heq, henl], fun _ => by omega⟩
       · rename_i s2 heq
         have e2 : Ext cfg lv s s2 := hen.trans (func_ext heq)
         have l2 : s2.listDepth = s.listDepth := by rw [func_ld heq, henl]
+        have n2 := e2.length_le
         split at h
         · rename_i s3 heq3
           cases h
-          exact ⟨e2.trans ((accept_ext heq3).trans (.of_eq (by simp))), by simp [accept_ld heq3, l2]⟩
+          refine ⟨e2.trans ((accept_ext heq3).trans (.of_eq (by simp))), by simp [accept_ld heq3, l2], ?_⟩
+          intro hr
+          -- the result is the decoder error after Expect(false): never none
+          exfalso
+          unfold S.expect S.fail at hr
+          simp only [Bool.false_eq_true, if_false] at hr
+          split at hr
+          · rename_i hsome; rw [hr] at hsome; simp at hsome
+          · simp at hr
         · rename_i s3 heq3
           have e3 : Ext cfg lv s s3 := e2.trans (accept_ext heq3)
           have l3 : s3.listDepth = s.listDepth := by rw [accept_ld heq3, l2]
+          have n3 : s3.inp.length < s.inp.length := by have := accept_true_lt heq3; omega
           split at h
           · rename_i s4 heq4
             cases h
-            exact ⟨e3.trans (accept_ext heq4), by rw [accept_ld heq4, l3]⟩
+            have := (accept_ext (cfg := cfg) (lv := lv) heq4).length_le
+            exact ⟨e3.trans (accept_ext heq4), by rw [accept_ld heq4, l3], fun _ => by omega⟩
           · rename_i s4 heq4
             have e4 : Ext cfg lv s s4 := e3.trans (accept_ext heq4)
             have l4 : s4.listDepth = s.listDepth := by rw [accept_ld heq4, l3]
+            have n4 : s4.inp.length < s.inp.length := by
+              have := (accept_ext (cfg := cfg) (lv := lv) heq4).length_le; omega
             split at h
             · cases h
-              exact ⟨e4.trans (.of_eq ⟨rfl, rfl, rfl⟩), by simp [l4]⟩
+              exact ⟨e4.trans (.of_eq ⟨rfl, rfl, rfl⟩), by simp [l4], fun hr => by cases hr⟩
             · rename_i hlt
               generalize hL : searchList cfg fuel d (cur + 1) { s4 with listDepth := s4.listDepth + 1 } = pL at h
               obtain ⟨e, s5⟩ := pL
               cases h
               have hlt' : ¬ (s4.listDepth + 1 ≥ maxListDepth) := hlt
               have hL' := ihL d (cur + 1) { s4 with listDepth := s4.listDepth + 1 } e s5
-                (by simp only [l4]; omega) hd (by simp only [maxListDepth] at hlt'; simp only; omega) hL
+                (by simp only [l4]; omega) hd (by simp only [maxListDepth] at hlt'; simp only; omega)
+                (by show 2 * s4.inp.length + 4 ≤ fuel; omega) hL
               have e5 : Ext cfg lv s4 s5 :=
                 Ext.trans (s' := { s4 with listDepth := s4.listDepth + 1 }) (.of_eq ⟨rfl, rfl, rfl⟩) hL'.1
-              refine ⟨e4.trans (Ext.trans e5 (.of_eq ⟨rfl, rfl, rfl⟩)), ?_⟩
+              have n5 := e5.length_le
+              refine ⟨e4.trans (Ext.trans e5 (.of_eq ⟨rfl, rfl, rfl⟩)), ?_, fun _ => by show s5.inp.length < s.inp.length; omega⟩
               simp only [hL'.2, l4]
               omega
     · -- searchList
-      intro d cur s r s1 hcur hd hl h
+      intro d cur s r s1 hcur hd hl hf h
       simp only [searchList] at h
       split at h
       · rename_i e s2 heq
         cases h
-        exact ihK d cur s _ _ hcur hd hl heq
+        have hK := ihK d cur s _ _ hcur hd hl (by omega) heq
+        exact ⟨hK.1, hK.2.1⟩
       · rename_i s2 heq
-        have hK := ihK d cur s _ _ hcur hd hl heq
+        have hK := ihK d cur s _ _ hcur hd hl (by omega) heq
+        have n2 := hK.2.2 rfl
         split at h
         · rename_i s3 heq3
           cases h
-          exact ⟨hK.1.trans (accept_ext heq3), by rw [accept_ld heq3, hK.2]⟩
+          exact ⟨hK.1.trans (accept_ext heq3), by rw [accept_ld heq3, hK.2.1]⟩
         · rename_i s3 heq3
           have e3 : Ext cfg lv s s3 := hK.1.trans (accept_ext heq3)
-          have l3 : s3.listDepth = s.listDepth := by rw [accept_ld heq3, hK.2]
+          have l3 : s3.listDepth = s.listDepth := by rw [accept_ld heq3, hK.2.1]
+          have n3 := (accept_ext (cfg := cfg) (lv := lv) heq3).length_le
           split at h
           · rename_i s4 heq4
             cases h
             exact ⟨e3.trans (expectSP_ext heq4), by rw [expectSP_ld heq4, l3]⟩
           · rename_i s4 heq4
             have l4 : s4.listDepth = s.listDepth := by rw [expectSP_ld heq4, l3]
-            have hL := ihL d cur s4 r s1 (by rw [l4]; exact hcur) hd (by rw [l4]; exact hl) h
+            have n4 := (expectSP_ext (cfg := cfg) (lv := lv) heq4).length_le
+            have hL := ihL d cur s4 r s1 (by rw [l4]; exact hcur) hd (by rw [l4]; exact hl) (by omega) h
             exact ⟨(e3.trans (expectSP_ext heq4)).trans hL.1, by rw [hL.2, l4]⟩
     · -- searchKeyAtom
-      intro d cur k s r s1 hcur hd hl h
+      intro d cur k s r s1 hcur hd hl hf h
       simp only [searchKeyAtom] at h
       split at h
       · cases h; exact ⟨.refl, rfl⟩
@@ -472,8 +540,9 @@ theorem searchOK (cfg : Cfg) (lv : Bool) : ∀ fuel, SearchOK cfg lv fuel := by
             exact ⟨expectSP_ext heq, expectSP_ld heq⟩
           · rename_i s2 heq
             have l2 := expectSP_ld heq
-            have hK := ihK (d + 1) (cur + 1) s2 r s1 (by rw [l2]; omega) hd' (by rw [l2]; exact hl) h
-            exact ⟨(expectSP_ext heq).trans hK.1, by rw [hK.2, l2]⟩
+            have n2 := (expectSP_ext (cfg := cfg) (lv := lv) heq).length_le
+            have hK := ihK (d + 1) (cur + 1) s2 r s1 (by rw [l2]; omega) hd' (by rw [l2]; exact hl) (by omega) h
+            exact ⟨(expectSP_ext heq).trans hK.1, by rw [hK.2.1, l2]⟩
       · split at h
         · cases h; exact ⟨.refl, rfl⟩
         · rename_i hnot
@@ -489,67 +558,107 @@ theorem searchOK (cfg : Cfg) (lv : Bool) : ∀ fuel, SearchOK cfg lv fuel := by
             exact ⟨expectSP_ext heq, expectSP_ld heq⟩
           · rename_i s2 heq
             have l2 := expectSP_ld heq
+            have n2 := (expectSP_ext (cfg := cfg) (lv := lv) heq).length_le
             split at h
             · rename_i e s3 heq3
               cases h
-              have hK := ihK (d + 1) (cur + 1) s2 _ _ (by rw [l2]; omega) hd' (by rw [l2]; exact hl) heq3
-              exact ⟨(expectSP_ext heq).trans hK.1, by rw [hK.2, l2]⟩
+              have hK := ihK (d + 1) (cur + 1) s2 _ _ (by rw [l2]; omega) hd' (by rw [l2]; exact hl) (by omega) heq3
+              exact ⟨(expectSP_ext heq).trans hK.1, by rw [hK.2.1, l2]⟩
             · rename_i s3 heq3
-              have hK := ihK (d + 1) (cur + 1) s2 _ _ (by rw [l2]; omega) hd' (by rw [l2]; exact hl) heq3
-              have l3 : s3.listDepth = s.listDepth := by rw [hK.2, l2]
+              have hK := ihK (d + 1) (cur + 1) s2 _ _ (by rw [l2]; omega) hd' (by rw [l2]; exact hl) (by omega) heq3
+              have l3 : s3.listDepth = s.listDepth := by rw [hK.2.1, l2]
+              have n3 := hK.1.length_le
               split at h
               · rename_i s4 heq4
                 cases h
                 exact ⟨((expectSP_ext heq).trans hK.1).trans (expectSP_ext heq4), by rw [expectSP_ld heq4, l3]⟩
               · rename_i s4 heq4
                 have l4 : s4.listDepth = s.listDepth := by rw [expectSP_ld heq4, l3]
-                have hK2 := ihK (d + 1) (cur + 1) s4 r s1 (by rw [l4]; omega) hd' (by rw [l4]; exact hl) h
-                exact ⟨(((expectSP_ext heq).trans hK.1).trans (expectSP_ext heq4)).trans hK2.1, by rw [hK2.2, l4]⟩
+                have n4 := (expectSP_ext (cfg := cfg) (lv := lv) heq4).length_le
+                have hK2 := ihK (d + 1) (cur + 1) s4 r s1 (by rw [l4]; omega) hd' (by rw [l4]; exact hl) (by omega) h
+                exact ⟨(((expectSP_ext heq).trans hK.1).trans (expectSP_ext heq4)).trans hK2.1, by rw [hK2.2.1, l4]⟩
 
 /-! ## the other loops and the handlers -/
 
-theorem flagItems_ext {cfg} {lv : Bool} : ∀ (fuel : Nat) (s : S) r s1, flagItems fuel s = (r, s1) → Ext cfg lv s s1 := by
+theorem flagItems_ext {cfg} {lv : Bool} : ∀ (fuel : Nat) (s : S) r s1, s.inp.length < fuel →
+    flagItems fuel s = (r, s1) → Ext cfg lv s s1 := by
   intro fuel
   induction fuel with
-  | zero => intro s r s1 h; simp only [flagItems] at h; cases h; exact Ext.emit (by trivial)
+  | zero => intro s r s1 hf; omega
   | succ fuel ih =>
-    intro s r s1 h
+    intro s r s1 hf h
     simp only [flagItems] at h
     have e1 : Ext cfg lv s (s.accept 92).2 := accept_ext rfl
     generalize (s.accept 92) = p1 at h e1
     obtain ⟨sys, s2⟩ := p1
     dsimp only at h e1
-    have e2 : Ext cfg lv s (if sys = true then s2.accept 42 else (false, s2)).2 := by
+    have e2 : Ext cfg lv s (if sys = true then s2.accept 42 else (false, s2)).2 ∧
+        ((if sys = true then s2.accept 42 else (false, s2)).1 = true →
+          (if sys = true then s2.accept 42 else (false, s2)).2.inp.length < s.inp.length) := by
       split
-      · exact e1.trans (accept_ext rfl)
-      · exact e1
+      · refine ⟨e1.trans (accept_ext rfl), fun hstar => ?_⟩
+        have := accept_true_lt (Prod.ext hstar rfl : s2.accept 42 = (true, (s2.accept 42).2))
+        have := e1.length_le
+        omega
+      · exact ⟨e1, fun hf => by cases hf⟩
     generalize (if sys = true then s2.accept 42 else (false, s2)) = p2 at h e2
     obtain ⟨star, s3⟩ := p2
     dsimp only at h e2
+    obtain ⟨e2, hstar⟩ := e2
     have e3 : Ext cfg lv s (if star = true then ((none : Option Err), s3) else
         match s3.expectAtom with
         | (some _, s) => (none, s)
-        | (none, s) => (s.err, s)).2 := by
+        | (none, s) => (s.err, s)).2 ∧
+        ((if star = true then ((none : Option Err), s3) else
+        match s3.expectAtom with
+        | (some _, s) => (none, s)
+        | (none, s) => (s.err, s)).1 = none →
+         (if star = true then ((none : Option Err), s3) else
+        match s3.expectAtom with
+        | (some _, s) => (none, s)
+        | (none, s) => (s.err, s)).2.inp.length < s.inp.length) := by
       split
-      · exact e2
+      · rename_i hs; exact ⟨e2, fun _ => hstar hs⟩
       · split
-        · rename_i heq; exact e2.trans (expectAtom_ext heq)
-        · rename_i heq; exact e2.trans (expectAtom_ext heq)
+        · rename_i heq
+          refine ⟨e2.trans (expectAtom_ext heq), fun _ => ?_⟩
+          have := expectAtom_some_lt heq
+          have := e2.length_le
+          dsimp only
+          omega
+        · rename_i s4 heq
+          refine ⟨e2.trans (expectAtom_ext heq), fun hn => ?_⟩
+          -- the error of a failed ExpectAtom is set: never none
+          exfalso
+          unfold S.expectAtom at heq
+          split at heq
+          · cases heq
+          · rename_i s5 h5
+            cases heq
+            dsimp only at hn
+            unfold S.fail at hn
+            split at hn
+            · rename_i hsome; rw [hn] at hsome; simp at hsome
+            · simp at hn
     generalize (if star = true then ((none : Option Err), s3) else
         match s3.expectAtom with
         | (some _, s) => (none, s)
         | (none, s) => (s.err, s)) = p3 at h e3
     obtain ⟨e, s4⟩ := p3
     dsimp only at h e3
+    obtain ⟨e3, hprog⟩ := e3
     split at h
     · cases h; exact e3
-    · split at h
+    · have n4 := hprog rfl
+      split at h
       · rename_i s5 heq; cases h; exact e3.trans (accept_ext heq)
       · rename_i s5 heq
         split at h
         · rename_i s6 heq6; cases h; exact (e3.trans (accept_ext heq)).trans (expectSP_ext heq6)
         · rename_i s6 heq6
-          exact ((e3.trans (accept_ext heq)).trans (expectSP_ext heq6)).trans (ih _ _ _ h)
+          have n5 := (accept_ext (cfg := cfg) (lv := lv) heq).length_le
+          have n6 := (expectSP_ext (cfg := cfg) (lv := lv) heq6).length_le
+          exact ((e3.trans (accept_ext heq)).trans (expectSP_ext heq6)).trans (ih _ _ _ (by omega) h)
 
 theorem flagList_ext {cfg} {lv : Bool} {s : S} {b r s1} (h : s.flagList = (b, r, s1)) : Ext cfg lv s s1 := by
   unfold S.flagList at h
@@ -566,7 +675,7 @@ theorem flagList_ext {cfg} {lv : Bool} {s : S} {b r s1} (h : s.flagList = (b, r,
         refine Ext.trans (s' := { s3 with listDepth := s3.listDepth + 1 }) (.of_eq ⟨rfl, rfl, rfl⟩) ?_
         unfold S.enter
         exact Ext.emit (show Good cfg lv (.depthAt 1) from fun _ => by omega)
-      exact (e1.trans (flagItems_ext _ _ _ _ rfl)).trans (.of_eq ⟨rfl, rfl, rfl⟩)
+      exact (e1.trans (flagItems_ext _ _ _ _ (Nat.lt_succ_self _) rfl)).trans (.of_eq ⟨rfl, rfl, rfl⟩)
 
 theorem noArgs_ext {cfg} {lv : Bool} {s : S} {body : S → Option Err × S} {r s1}
     (hb : ∀ s r s1, body s = (r, s1) → Ext cfg lv s s1) (h : noArgs s body = (r, s1)) : Ext cfg lv s s1 := by
@@ -675,12 +784,13 @@ theorem hRename_ext {cfg} {lv : Bool} {s : S} {r s1} (h : hRename cfg s = (r, s1
             refine (e5.trans (expectCRLF_ext h6)).trans (needAuth_ext ?_ h)
             intro s r s1 h; cases h; exact emitCall_ext _ _ _
 
-theorem enableArgs_ext {cfg} {lv : Bool} : ∀ (fuel : Nat) (s : S) r s1, enableArgs fuel s = (r, s1) → Ext cfg lv s s1 := by
+theorem enableArgs_ext {cfg} {lv : Bool} : ∀ (fuel : Nat) (s : S) r s1, s.inp.length < fuel →
+    enableArgs fuel s = (r, s1) → Ext cfg lv s s1 := by
   intro fuel
   induction fuel with
-  | zero => intro s r s1 h; simp only [enableArgs] at h; cases h; exact Ext.emit (by trivial)
+  | zero => intro s r s1 hf; omega
   | succ fuel ih =>
-    intro s r s1 h
+    intro s r s1 hf h
     simp only [enableArgs] at h
     split at h
     · rename_i s2 h2
@@ -693,7 +803,12 @@ theorem enableArgs_ext {cfg} {lv : Bool} : ∀ (fuel : Nat) (s : S) r s1, enable
       split at h
       · rename_i s3 h3; cases h; exact (sp_ext h2).trans (expectAtom_ext h3)
       · rename_i a s3 h3
-        exact ((sp_ext h2).trans (expectAtom_ext h3)).trans (ih _ _ _ h)
+        have n2 := (sp_ext (cfg := cfg) (lv := lv) h2).length_le
+        have n3 := expectAtom_some_lt h3
+        exact ((sp_ext h2).trans (expectAtom_ext h3)).trans (ih _ _ _ (by omega) h)
+
+theorem hEnable_ext {cfg} {lv : Bool} {s : S} {r s1} (h : hEnable s = (r, s1)) : Ext cfg lv s s1 :=
+  enableArgs_ext _ _ _ _ (Nat.lt_succ_self _) h
 
 theorem appendLiteral_ext {cfg} {lv : Bool} {m : Bytes} {s : S} {r s1} (h : appendLiteral cfg m s = (r, s1)) : Ext cfg lv s s1 := by
   unfold appendLiteral at h
@@ -845,23 +960,25 @@ theorem hIdle_ext {cfg} {lv : Bool} {s : S} {r s1} (h : hIdle cfg s = (r, s1)) :
       · exact e1.trans (Ext.take _ _)
     split at h <;> (cases h; exact e2)
 
-theorem searchKeys_ext {cfg} {lv : Bool} : ∀ (fuel : Nat) (s : S) r s1, s.listDepth = 0 →
+theorem searchKeys_ext {cfg} {lv : Bool} : ∀ (fuel : Nat) (s : S) r s1, s.listDepth = 0 → s.inp.length < fuel →
     searchKeys cfg fuel s = (r, s1) → Ext cfg lv s s1 := by
   intro fuel
   induction fuel with
-  | zero => intro s r s1 _ h; simp only [searchKeys] at h; cases h; exact Ext.emit (by trivial)
+  | zero => intro s r s1 _ hf; omega
   | succ fuel ih =>
-    intro s r s1 hl h
+    intro s r s1 hl hf h
     simp only [searchKeys] at h
     split at h
     · rename_i e s2 h2
       cases h
-      exact ((searchOK cfg lv _).1 0 1 s _ _ (by omega) (by intro _; omega) (by omega) h2).1
+      exact ((searchOK cfg lv _).1 0 1 s _ _ (by omega) (by intro _; omega) (by omega) (by omega) h2).1
     · rename_i s2 h2
-      have hK := (searchOK cfg lv _).1 0 1 s _ _ (by omega) (by intro _; omega) (by omega) h2
+      have hK := (searchOK cfg lv _).1 0 1 s _ _ (by omega) (by intro _; omega) (by omega) (by omega) h2
+      have n2 := hK.2.2 rfl
       split at h
       · rename_i s3 h3
-        exact (hK.1.trans (sp_ext h3)).trans (ih _ _ _ (by rw [sp_ld h3, hK.2, hl]) h)
+        have n3 := (sp_ext (cfg := cfg) (lv := lv) h3).length_le
+        exact (hK.1.trans (sp_ext h3)).trans (ih _ _ _ (by rw [sp_ld h3, hK.2.1, hl]) (by omega) h)
       · rename_i s3 h3
         split at h
         · rename_i s4 h4; cases h; exact (hK.1.trans (sp_ext h3)).trans (expectCRLF_ext h4)
@@ -878,7 +995,7 @@ theorem hSearch_ext {cfg} {lv : Bool} {s : S} {r s1} (hl : s.listDepth = 0) (h :
     dsimp only at h
     split at h
     · cases h; exact (expectSP_ext h2).trans (Ext.emit (by trivial))
-    · exact (expectSP_ext h2).trans (searchKeys_ext _ _ _ _ (by rw [expectSP_ld h2, hl]) h)
+    · exact (expectSP_ext h2).trans (searchKeys_ext _ _ _ _ (by rw [expectSP_ld h2, hl]) (Nat.lt_succ_self _) h)
 
 theorem lookup_mem {α β} [BEq α] : ∀ (l : List (α × β)) (k : α) (v : β),
     l.lookup k = some v → ∃ k', (k', v) ∈ l := by
@@ -946,7 +1063,7 @@ theorem handlerOf_ext {cfg} {lv : Bool} {name : Bytes} {f : S → Option Err × 
       | (cases hh; first
           | exact hNoop_ext h | exact hLogout_ext h | exact hStartTLS_ext h | exact hUnauthenticate_ext h
           | exact hNamespace_ext h | exact hUnselect_ext h | exact hExpunge_ext h
-          | exact enableArgs_ext _ _ _ _ h | exact hLogin_ext h | exact hSelect_ext h | exact hCreate_ext h
+          | exact hEnable_ext h | exact hLogin_ext h | exact hSelect_ext h | exact hCreate_ext h
           | exact hMailbox_ext h | exact hRename_ext h | exact hAppend_ext h | exact hAuthenticate_ext h
           | exact hIdle_ext h | exact hSearch_ext hl h)
       | (exact absurd hh (by simp))
@@ -1046,26 +1163,6 @@ theorem readCommand_ext {cfg} {s : S} {b s1} (h : readCommand cfg s = (b, s1)) :
 inductive LoopEnd (cfg : Cfg) (lv : Bool) (s : S) (r : S) : Prop where
   | closed (s1 : S) (h : Ext cfg lv s s1) (hr : r = s1.emit .close)
   | gaveUp (h : Ext cfg lv s r) (ho : r.evs.head? = some .opaque)
-
-theorem func_some_lt {s : S} {valid : Nat → Bool} {t s1} (h : s.func valid = (some t, s1)) :
-    s1.inp.length < s.inp.length := by
-  unfold S.func at h
-  dsimp only at h
-  split at h
-  · cases h
-  · split at h
-    · cases h
-    · split at h
-      · cases h
-      · rename_i hne hne2
-        cases h
-        simp only [S.take, List.length_drop]
-        have : (List.takeWhile valid s.inp).length ≠ 0 := by
-          intro h0; apply hne2; simpa using h0
-        have hle : (List.takeWhile valid s.inp).length ≤ s.inp.length := by
-          have := List.takeWhile_sublist (p := valid) (l := s.inp)
-          exact this.length_le
-        omega
 
 theorem cmdHeader_some_lt {cfg : Cfg} {lv : Bool} {s : S} {tn s1} (h : cmdHeader s = (some tn, s1)) :
     s1.inp.length < s.inp.length := by
